@@ -340,6 +340,9 @@ class BacktestingDispatcher(EventDispatcher):
         self._last_dt = now
 
     async def _dispatch_loop(self):
+        # Set once we run out of events. Jobs scheduled beyond this point will not be executed.
+        last_scheduled_dt: Optional[datetime.datetime] = None
+
         while not self.stopped:
             next_dt = self._event_mux.peek_next_event_dt()
             if next_dt:
@@ -347,16 +350,22 @@ class BacktestingDispatcher(EventDispatcher):
                 assert self._last_dt is None or next_dt >= self._last_dt, \
                     f"{next_dt} can't be dispatched after {self._last_dt}"
 
-                await self._dispatch_scheduled(next_dt)
-                await self._dispatch_events(next_dt)
+                # If a scheduled job produced an event that is due before next_dt we need to start over.
+                if await self._dispatch_scheduled(next_dt):
+                    await self._dispatch_events(next_dt)
             else:
                 # Dispatch all pending scheduled before stopping.
-                if last_scheduled_dt := self._scheduler_queue.peek_last_event_dt():
+                if last_scheduled_dt is None:
+                    last_scheduled_dt = self._scheduler_queue.peek_last_event_dt()
+                if last_scheduled_dt:
                     await self._dispatch_scheduled(last_scheduled_dt)
-                self.stop()
+                # Scheduled jobs may have produced new events.
+                if self._event_mux.peek_next_event_dt() is None:
+                    self.stop()
 
-    async def _dispatch_scheduled(self, dt: datetime.datetime):
+    async def _dispatch_scheduled(self, dt: datetime.datetime) -> bool:
         # Execute jobs that were scheduled to run before dt.
+        # Returns False if it stopped early because a job produced events that have to be dispatched before dt.
         next_scheduled_dt = self._scheduler_queue.peek_next_event_dt()
         while next_scheduled_dt and next_scheduled_dt <= dt:
             # If self._last_dt is already set in the future, don't move it backwards in time.
@@ -368,7 +377,13 @@ class BacktestingDispatcher(EventDispatcher):
             # Waiting here and not outside of the loop to prevent executing distant scheduled jobs at the same time.
             await self._handlers_task_pool.wait()
 
+            # Events produced by the job have to be dispatched before any job or event that comes later.
+            next_event_dt = self._event_mux.peek_next_event_dt()
+            if next_event_dt is not None and next_event_dt < dt:
+                return False
+
             next_scheduled_dt = self._scheduler_queue.peek_next_event_dt()
+        return True
 
     async def _dispatch_events(self, dt: datetime.datetime):
         # Pop events, push them into the task pool, and wait those to finish executing.
